@@ -19,7 +19,7 @@ RULE = (
     "L, exact L-1, exact L+1, 'L...', 'L+1...', '...L', '...L-1', two items excluding L, two items including L} "
     "(fixed: widths L, L+2, L-1) x allowed characters {none, everything but '#', everything but a character of the "
     "base cell, printable ASCII only} x formats {delimited, fixed, excel, ods} x cells {'', blanks only, base cell, base cell one shorter "
-    "/ one longer where the type permits, base cell with '#' substituted at every position, base cell with tab / no-break space / em space at either edge}; observed through "
+    "/ one longer where the type permits, base cell with '#' substituted at every position, base cell with tab / no-break space / em space / (not fixed) line feed at either edge}; observed through "
     "FieldFormat.validated and through cutplace.rows(on_error='yield') on streams (delimited, fixed) and generated "
     "files (ods, xlsx). Hypothesis adds random lengths, character ranges and cells. Oracle: guards of "
     "vlib/model_fields.verdict. Non-trivial: a case in which a guard and the type rule disagree (the rule alone "
@@ -111,7 +111,11 @@ def _configs():
                         if type_name == "DateTime":
                             # an Excel date cell as text: 19 characters whatever the rule makes of the suffix
                             cells.append(base + " 00:00:00")
-                        for edge in "\t\xa0\u2003":
+                        if len(base) > 2:
+                            # text that ends the way numbers do in spreadsheets: the guards see all of it
+                            cells.append(base[:-2] + ".0")
+                        # a line feed too where a cell can hold one (it is no end of the text for the guards)
+                        for edge in "\t\xa0\u2003" + ("" if fixed else "\n"):
                             cells.append(base[:-1] + edge)
                             cells.append(edge + base[1:])
                         if fixed:
